@@ -102,7 +102,7 @@ def gen_case(rng):
     files[srcfile] = gen_text(rng, a, b, ".zo")
     for i in range(rng.randint(1, 5)):
         ext = rng.choice([".zo", ".zo", ".zot", ".zoq"])
-        d = rng.choice(["", "", "proj/", "deep/er/", "zoq/" if ext == ".zoq" else ""])
+        d = rng.choice(["", "", "proj/", "deep/er/", ".archive/2022/", "zoq/" if ext == ".zoq" else ""])
         files[f"{d}f{i}{ext}"] = gen_text(rng, a, b, ext)
     if rng.random() < 0.3:
         files["plain.txt"] = f"not a zorg file [[{a}]]\n"
@@ -125,7 +125,7 @@ def run_impl(ctx, case, zdir: Path, cfg: Path):
         exc = None
     except Exception as e:  # noqa
         rc, exc = None, type(e).__name__
-    return rc, exc, Z.snapshot_dir(zdir)
+    return rc, exc, {k: v for k, v in Z.snapshot_dir(zdir, include_hidden=True).items() if not k.startswith(".zorg/")}
 
 
 def body(ctx: C.Ctx, proof: C.ProofStatus) -> C.Result:
